@@ -316,16 +316,18 @@ int main()
       }
       g_objs[I(1)] = o;
     }
-    else if (op == "mvobj" || op == "cpobj")
+    else if (op == "mvobj" || op == "cpobj" || op == "cpobjc")
     {
       Obj& src = g_objs.at(I(2));
       Obj o; o.kind = src.kind;
       bool mv = op == "mvobj";
+      bool from_const = op == "cpobjc";   // a const source selects the implicit copy constructor, not the forwarding one
       switch (src.kind)
       {
       case 'M': if (!mv) bad("cp M", line); o.m = new MockM(std::move(*src.m)); break;
       case 'W': if (!mv) bad("cp W", line); o.wm = new WatchM(std::move(*src.wm)); break;
-      case 'P': o.wp = mv ? new WatchP(std::move(*src.wp)) : new WatchP(*src.wp); break;
+      case 'P': o.wp = mv ? new WatchP(std::move(*src.wp))
+                          : (from_const ? new WatchP(*static_cast<WatchP const*>(src.wp)) : new WatchP(*src.wp)); break;
       default: bad("mv kind", line);
       }
       g_objs[I(1)] = o;
